@@ -626,6 +626,7 @@ class Ctx:
         self.pseudo = {}          # pseudo outputs (opaque calls, byte-array copies): name -> initial value
         self.slot_keys = {}       # <slot local>_<field> -> canonical sort key
         self.local_structs = {}   # local built by `T::default()` -> T
+        self.slot_len = {}        # slot local -> array length as written in the field's type
         self.slot_base = {}       # slot local -> index path of the array field
 
     def field_type(self, path):
@@ -826,6 +827,8 @@ def vec_field(ctx, path):
 def vec_len_name(ctx, path):
     """a `Vec<_>` field is represented by its length only: input/output <path>_len"""
     nm = "_".join(path) + "_len"
+    if "_".join(path) + "_is_empty" in ctx.ptype:
+        raise TErr("self.%s: both is_empty() and len()/push() in one function" % ".".join(path))
     FIELD_PATHS[(id(ctx), nm)] = list(path) + ["len()"]
     if nm not in ctx.ptype:
         ctx.ptype[nm] = "usize"
@@ -1139,6 +1142,8 @@ def ev(e, env):
             if p is None:
                 raise TErr("is_empty on non-field")
             nm = "_".join(p) + "_is_empty"
+            if "_".join(p) + "_len" in ctx.ptype:
+                raise TErr("self.%s: both is_empty() and len()/push() in one function" % ".".join(p))
             FIELD_PATHS[(id(ctx), nm)] = list(p) + ["is_empty()"]
             if nm not in ctx.ptype:
                 ctx.ptype[nm] = "bool"
@@ -1175,6 +1180,8 @@ def ev(e, env):
                 raise TErr("call to mutating function %s in expression position" % name)
             return "(leaf_%s %s)" % (callee["coq"], " ".join(call_actuals(callee, None, args, env))), callee["rtype"]
         if name in OPAQUE_FNS and callee is None:
+            if not all(pure_expr(a) for a in args):
+                raise TErr("argument of %s with a possible effect" % name)
             note = "%s(..) is not translated here (wire codec, property C15): its value is tt" % name
             if note not in ctx.notes:
                 ctx.notes.append(note)
@@ -1328,9 +1335,10 @@ def slot_binding(s, env):
     if s[0] != "let" or s[2][0] != "index" or path_of(s[2][1]) is None:
         return None
     fty = env.ctx.field_type(path_of(s[2][1])) or ""
-    m = re.match(r"(?:Box<\s*)?\[\s*(\w+)\s*;[^\]]*\]\s*>?$", fty)
+    m = re.match(r"(?:Box<\s*)?\[\s*(\w+)\s*;\s*([^\]]*?)\s*\]\s*>?$", fty)
     if not m or m.group(1) not in env.ctx.structs:
         raise TErr("indexing self.%s of type %s" % (".".join(path_of(s[2][1])), fty))
+    env.ctx.slot_len[s[1]] = m.group(2)
     return s[1], m.group(1), path_of(s[2][1]), s[2][2]
 
 
@@ -1754,7 +1762,9 @@ def translate(coq_name, rel, impl, fn, srcs, structs, consts):
                              "called as the LAST effect of that path; None on the other paths" % (n, n[5:]))
         elif n in ctx.pseudo and n.endswith("_slot"):
             ctx.notes.append("%s = index of the one array element this function accesses; %s_<field> = that element's "
-                             "fields (inputs: before, outputs: after)" % (n, n[:-5]))
+                             "fields (inputs: before, outputs: after); the array has %s elements, an index not below that "
+                             "panics (not modelled here: Proofs/LeafTrkP.v shows the index in range)"
+                             % (n, n[:-5], ctx.slot_len.get(n[:-5], "?")))
         elif n in ctx.pseudo:
             ctx.notes.append("%s = Some (lo, hi): that range of the slice parameter is copied into the byte array (bytes "
                              "themselves are not translated); None where nothing is copied" % n)
